@@ -38,17 +38,22 @@ Definition order_limit_with (srt : sorter) (c : sort_cfg) (lim : option Z) (rows
   bind (order_by_with srt c rows) (plan_limit lim).
 
 (* LIMIT push-down (processClause / addSpecifiedData -> simpleFetch): when the statement has ONE clause, no GROUP BY
-   and no HAVING, and the clause is the full scan {?s ?p ?o}, a positive limit becomes MaxElements of the driver
-   lookup: only the first n triples (in the driver's order) ever reach the table. *)
-Definition fetch_pushdown {A} (pushdown : bool) (lim : option Z) (rows : list A) : list A :=
-  match lim with
-  | Some n => if pushdown && (0 <? n) then firstn (Z.to_nat n) rows else rows
-  | None => rows
+   and no HAVING, and the clause fixes neither subject, predicate nor object (the "full data request": {?s ?p ?o}, but
+   also {?s "t"@[?t] ?o}, whose predicate is only known by id), a positive limit becomes MaxElements of the driver
+   lookup: only the first n TRIPLES of the graph (in the driver's order) are looked at, and those that do not match
+   the clause are then dropped.  [mask] says, for each triple of the graph in driver order, whether it matches the
+   clause (None = no push-down for this statement); [rows] are the rows of the matching triples, in the same order. *)
+Definition count_true (l : list bool) : nat := length (filter (fun b => b) l).
+
+Definition fetch_pushdown {A} (mask : option (list bool)) (lim : option Z) (rows : list A) : list A :=
+  match mask, lim with
+  | Some m, Some n => if 0 <? n then firstn (count_true (firstn (Z.to_nat n) m)) rows else rows
+  | _, _ => rows
   end.
 
-Definition exec_order_limit_with (srt : sorter) (pushdown : bool) (c : sort_cfg) (lim : option Z)
+Definition exec_order_limit_with (srt : sorter) (mask : option (list bool)) (c : sort_cfg) (lim : option Z)
     (rows : list row) : res (list row) :=
-  order_limit_with srt c lim (fetch_pushdown pushdown lim rows).
+  order_limit_with srt c lim (fetch_pushdown mask lim rows).
 
 (* orderByBindingsChecker: a key may be repeated with the same direction; then the SortConfig is REBUILT by ranging
    over the map of seen bindings - in Go's unspecified map order, modelled by the argument [perm]. *)
